@@ -1,6 +1,7 @@
 import RichModel.Lemmas.LayoutFits
 import RichModel.Lemmas.LayoutTableCols
 import RichModel.Lemmas.LayoutTableNil
+import RichModel.Lemmas.LayoutTableGeneral
 /-!
 The table and columns cases of the induction behind C01, and the induction itself (`good`, `goodL`).
 -/
@@ -33,11 +34,43 @@ theorem tableExtra_subst (env : Env) (o : TableOpts) (n : Nat) : tableExtra (o.s
 
 theorem colsR_nil (cfg : Cfg) : colsR cfg [] = [] := by rw [colsR]
 
+/-- the oracles the model builds measure `0 ≤ maximum` -/
+theorem colsR_meas (cfg : Cfg) (cols : List Col) :
+    ∀ c ∈ colsR cfg cols, ∀ ch ∈ c.header :: c.footer :: c.cells, ∀ k : Nat, 0 ≤ (ch.measure k).maximum := by
+  intro c hc' ch hch k
+  obtain ⟨x, _, rfl⟩ := colsR_mem cfg cols c hc'
+  obtain ⟨r, o', rfl⟩ := colR_cells cfg x ch hch
+  exact (chOf_measure_normal cfg r o' k).1
+
+/-- title ++ body ++ caption for a table with ARBITRARY columns that meets `tableBudget`: no body line is wider than the available
+width plus `floorSum` (the `min_width` floors) -/
+theorem table_general_decomp (cfg : Cfg) (ok : CfgOk cfg) (to : TableOpts) (cols : List Col) (o : Opts) (w : Nat)
+    (hne : cols ≠ []) (hwd : ∀ tw, to.width = some tw → tw ≤ w)
+    (hr : (cfg.fl.flexNegative = false ∧ cfg.fl.flexClampZero = false) ∨ (toTable cfg (to.subst cfg.env) (colsR cfg cols)).NoRatio)
+    (hb : tableBudget cfg (to.subst cfg.env) (colsR cfg cols) w) :
+    ∃ (tw : Int) (body : List Seg), tw ≤ (w : Int) + (toTable cfg (to.subst cfg.env) (colsR cfg cols)).floorSum ∧
+      tableConsole cfg (to.subst cfg.env) o (colsR cfg cols) w =
+        annotation cfg to.title to.titleJustify o tw ++ body ++ annotation cfg to.caption to.captionJustify o tw ∧
+      (∀ l ∈ splitLines body, (lineLength cfg.cw l : Int) ≤ (w : Int) + (toTable cfg (to.subst cfg.env) (colsR cfg cols)).floorSum) ∧
+      Closed body := by
+  have hlen := colsR_length cfg cols
+  have hmeas := colsR_meas cfg cols
+  obtain ⟨ws0, h0, hbud⟩ := hb
+  obtain ⟨ws0', h0', hl, hp⟩ := tb_firstWidths_exists cfg (to.subst cfg.env) (colsR cfg cols)
+    ((toTable cfg (to.subst cfg.env) (colsR cfg cols)).width.getD (w : Int) - (toTable cfg (to.subst cfg.env) (colsR cfg cols)).extraWidth)
+    hmeas hr
+  rw [h0] at h0'
+  simp only [Option.some.injEq] at h0'
+  subst h0'
+  exact tableConsole_decomp_general cfg ok.hcw ok.hfl (to.subst cfg.env) o (colsR cfg cols) w
+    (by intro h; apply hne; have := congrArg List.length h; rw [hlen] at this; exact List.eq_nil_of_length_eq_zero (by simpa using this))
+    hmeas (fun tw h => hwd tw h) ws0 h0 hl hp hbud
+
 theorem good_table (cfg : Cfg) (ok : CfgOk cfg) (to : TableOpts) (cols : List Col) : Good cfg (.table to cols) := by
   intro o w _ hs hd
   rw [render]
   rw [Dom] at hd
-  obtain ⟨ht, hc, hfree, hwd⟩ := hd
+  obtain ⟨ht, hc, hcase⟩ := hd
   rw [smin] at hs
   have hlen := colsR_length cfg cols
   have hsc := sminCols_ge_length cfg.cw to cols
@@ -48,36 +81,47 @@ theorem good_table (cfg : Cfg) (ok : CfgOk cfg) (to : TableOpts) (cols : List Co
         tableConsole cfg (to.subst cfg.env) o (colsR cfg cols) w =
           annotation cfg to.title to.titleJustify o tw ++ body ++ annotation cfg to.caption to.captionJustify o tw ∧
         (∀ l ∈ splitLines body, lineLength cfg.cw l ≤ w) ∧ Closed body := by
-    cases hcols : cols with
-    | nil =>
-      rw [colsR_nil]
-      have := tableConsole_nil_decomp cfg ok.hcw (to.subst cfg.env) o w (by
-        rw [hcols] at hs hex; simp only [List.length_nil] at hs hex; rw [hex]; omega)
-      exact this
-    | cons c0 cs =>
-      right
-      rw [← hcols]
-      exact tableConsole_decomp cfg ok.hcw ok.hfl (to.subst cfg.env) o (colsR cfg cols) w
-        (by intro h; have := congrArg List.length h; rw [hlen, hcols] at this; simp at this)
-        (by
-          intro c hc'
-          obtain ⟨x, hx, rfl⟩ := colsR_mem cfg cols c hc'
-          rw [colR_o]
-          exact hfree x hx)
-        (by
-          intro c hc' ch hch k
-          obtain ⟨x, _, rfl⟩ := colsR_mem cfg cols c hc'
-          obtain ⟨r, o', rfl⟩ := colR_cells cfg x ch hch
-          exact (chOf_measure_normal cfg r o' k).1)
-        (by rw [hlen, hex]; omega)
-        (by
-          intro tw' htw'
-          rw [hlen, hex]
-          have htw'' : to.width = some tw' := htw'
-          have := hwd tw' htw''
-          rw [htw''] at hs
-          simp only [Option.getD_some] at hs
-          constructor <;> omega)
+    rcases hcase with ⟨hfree, hwd⟩ | ⟨hne, hmin, hr, hb⟩
+    · cases hcols : cols with
+      | nil =>
+        rw [colsR_nil]
+        have := tableConsole_nil_decomp cfg ok.hcw (to.subst cfg.env) o w (by
+          rw [hcols] at hs hex; simp only [List.length_nil] at hs hex; rw [hex]; omega)
+        exact this
+      | cons c0 cs =>
+        right
+        rw [← hcols]
+        exact tableConsole_decomp cfg ok.hcw ok.hfl (to.subst cfg.env) o (colsR cfg cols) w
+          (by intro h; have := congrArg List.length h; rw [hlen, hcols] at this; simp at this)
+          (by
+            intro c hc'
+            obtain ⟨x, hx, rfl⟩ := colsR_mem cfg cols c hc'
+            rw [colR_o]
+            exact hfree x hx)
+          (colsR_meas cfg cols)
+          (by rw [hlen, hex]; omega)
+          (by
+            intro tw' htw'
+            rw [hlen, hex]
+            have htw'' : to.width = some tw' := htw'
+            have := hwd tw' htw''
+            rw [htw''] at hs
+            simp only [Option.getD_some] at hs
+            constructor <;> omega)
+    · right
+      obtain ⟨tw, body, htw, heq, hlines, hclosed⟩ := table_general_decomp cfg ok to cols o w hne
+        (by intro tw' h; rw [h] at hs; simp only [Option.getD_some] at hs; omega) hr hb
+      have hF : (toTable cfg (to.subst cfg.env) (colsR cfg cols)).floorSum = 0 := by
+        apply tb_floorSum_zero
+        intro c hc'
+        obtain ⟨x, hx, rfl⟩ := colsR_mem cfg cols c hc'
+        rw [colR_o]
+        exact hmin x hx
+      rw [hF] at htw hlines
+      refine ⟨tw, body, by omega, heq, ?_, hclosed⟩
+      intro l hl
+      have := hlines l hl
+      omega
   rcases key with h | ⟨tw, body, htw, heq, hlines, hclosed⟩
   · rw [h, ok.hp]; exact ⟨fits_nil _ _, fun _ => closed_nil⟩
   · rw [heq]
@@ -86,6 +130,26 @@ theorem good_table (cfg : Cfg) (ok : CfgOk cfg) (to : TableOpts) (cols : List Co
     have hfb := fits_of_lines_le _ _ _ hlines
     exact ⟨fits_append _ _ _ _ (closed_append _ _ hc1 hclosed) (fits_append _ _ _ _ hc1 hf1 hfb) hf2,
       fun _ => closed_append _ _ (closed_append _ _ hc1 hclosed) hc2⟩
+
+/-- **The precise bound for a table with arbitrary columns, a binding `min_width` included**: within `tableBudget` no line of the table
+is wider than the available width plus `floorSum` — the `min_width + padding` floors of the columns that have a `min_width` and no
+fixed `width` (C07 `min_width_overflows` shows the bound attained). -/
+theorem table_general_bound (cfg : Cfg) (ok : CfgOk cfg) (to : TableOpts) (cols : List Col) (o : Opts) (w : Nat)
+    (hne : cols ≠ []) (hwd : ∀ tw, to.width = some tw → tw ≤ w)
+    (ht : annDom to.title o) (hc : annDom to.caption o)
+    (hr : (cfg.fl.flexNegative = false ∧ cfg.fl.flexClampZero = false) ∨ (toTable cfg (to.subst cfg.env) (colsR cfg cols)).NoRatio)
+    (hb : tableBudget cfg (to.subst cfg.env) (colsR cfg cols) w) :
+    Fits cfg.cw (w + (toTable cfg (to.subst cfg.env) (colsR cfg cols)).floorSum.toNat) (render cfg (.table to cols) o w) := by
+  rw [render]
+  obtain ⟨tw, body, htw, heq, hlines, hclosed⟩ := table_general_decomp cfg ok to cols o w hne hwd hr hb
+  have hF := Dep.floorSum_nonneg (toTable cfg (to.subst cfg.env) (colsR cfg cols))
+  generalize (toTable cfg (to.subst cfg.env) (colsR cfg cols)).floorSum = F at htw hlines hF ⊢
+  rw [heq]
+  have htw' : tw ≤ ((w + F.toNat : Nat) : Int) := by omega
+  obtain ⟨hf1, hc1⟩ := ann_fits cfg ok to.title to.titleJustify o tw (w + F.toNat) htw' ht
+  obtain ⟨hf2, _⟩ := ann_fits cfg ok to.caption to.captionJustify o tw (w + F.toNat) htw' hc
+  have hfb : Fits cfg.cw (w + F.toNat) body := fits_of_lines_le _ _ _ (fun l hl => by have := hlines l hl; omega)
+  exact fits_append _ _ _ _ (closed_append _ _ hc1 hclosed) (fits_append _ _ _ _ hc1 hf1 hfb) hf2
 
 theorem good_columns (cfg : Cfg) (ok : CfgOk cfg) (co : ColsOpts) (items : List R) : Good cfg (.columns co items) := by
   intro o w hw hs hd
